@@ -153,7 +153,7 @@ def _check_unrestriction(ctx, cu, mo_cls):
 
     where = f"{cu.module.relpath}:{cu.lineno}"
     cases = [("explicit occs_aminusb", dict()), ("missing optional arrays", dict(coeffs=False, energies=False, irreps=False)), ("no occupations", dict(occs=None, aminusb=None))]
-    for occs in ([2.0, 1.0, 0.0], [2.0, 2.0, 0.0], [1.8, 0.2, 0.0], [1.0, 1.0, 1.0], [0.9999999, 1.0000001, 0.0], [2.0, 1.0 - 1e-9, 1e-9]):
+    for occs in ([2.0, 1.0, 0.0], [2.0, 2.0, 0.0], [1.8, 0.2, 0.0], [1.0, 1.0, 1.0], [0.9999999, 1.0000001, 0.0], [2.0, 1.0 - 1e-9, 1e-9], [2.0, 1.0 + 1e-11, 1.0 - 1e-11], [2.0, 1.0 - 1e-5, 1e-5]):
         cases.append((f"heuristic occupations {occs}", dict(occs=occs, aminusb=None)))
     try:
         for label, kw in cases:
